@@ -430,7 +430,16 @@ func runPartialJoinScenarios(rng *rand.Rand, n int, st *c06Stats, fail func(prop
 			if _, err := peer.Append(ctx, []byte("peer"), nil); err == nil {
 				held := append([]string{}, older3.GetEntries().Keys()...)
 				lenBefore := older3.Len()
+				viewBefore := hashesOf(older3.Values().Slice())
 				if _, err := older3.Join(peer, -1); err == nil {
+					if viewAfter := hashesOf(older3.Values().Slice()); !isSubsequence(viewBefore, viewAfter) {
+						key := "C05:values-not-subsequence"
+						if cut < len(chain)-1 {
+							// the given head is named by another supplied entry (known finding K5)
+							key = "C05:values-not-subsequence:head-named-by-supplied-entry"
+						}
+						fail("C05", "values-subsequence", key, fmt.Sprintf("a log opened at entry %d of a chain of %d (all %d entries supplied) showed %d values; after an unbounded merge of an unrelated one-entry peer it shows %d and the earlier view is not a subsequence", cut+1, len(chain), len(chain), len(viewBefore), len(viewAfter)), info4)
+					}
 					after := older3.GetEntries()
 					for _, hk := range held {
 						if _, ok := after.Get(hk); !ok {
